@@ -104,6 +104,10 @@ func getRemoteAddr(r *http.Request) net.IP {
 
 func (s *APIRegServer) getC2SFromReq(w http.ResponseWriter, r *http.Request) (*pb.C2SWrapper, error) {
 	const MinimumRequestLength = regprocessor.SecretLength + 1 // shared_secret + VSP
+	// Registration requests are at most a few kilobytes. The body is buffered in full before it is
+	// parsed, so without a bound one request can make the registrar allocate as much as the sender
+	// cares to transmit.
+	const MaximumRequestLength = 1 << 20
 	if r.Method != "POST" {
 		s.logger.Errorf("rejecting request due to incorrect method %s\n", r.Method)
 		w.WriteHeader(http.StatusMethodNotAllowed)
@@ -116,7 +120,7 @@ func (s *APIRegServer) getC2SFromReq(w http.ResponseWriter, r *http.Request) (*p
 		return nil, errors.New("payload too small")
 	}
 
-	in, err := io.ReadAll(r.Body)
+	in, err := io.ReadAll(http.MaxBytesReader(w, r.Body, MaximumRequestLength))
 	if err != nil {
 		s.logger.Errorf("failed to read request body:", err)
 		http.Error(w, "Failed to read request body", http.StatusBadRequest)
